@@ -147,7 +147,7 @@ class UndirectedWeightedGraph : private LabeledUndirectedGraph<EdgeWeight> {
     ) {
         if (hasEdge(vertex1, vertex2)) {
             auto &currentWeight = edgeLabels[orderedEdge(vertex1, vertex2)];
-            totalWeight += newWeight - currentWeight;
+            totalWeight += (long double)newWeight - currentWeight;
             currentWeight = newWeight;
         } else {
             addEdge(vertex1, vertex2, newWeight);
